@@ -32,7 +32,25 @@ def budget(tier):
     return 1300 if tier == "quick" else 16000
 
 
+@st.composite
+def _with_collect(draw, base):
+    """C07 needs no model, so programs may also narrow the returned line with collect()"""
+    c = draw(base)
+    if draw(st.integers(0, 3)) == 1:
+        cols = c["table"]["cols"]
+        k = draw(st.integers(1, min(3, len(cols))))
+        picks = draw(st.lists(st.integers(0, len(cols) - 1), min_size=k, max_size=k, unique=True))
+        args = [["t", cols[i]["name"]] if draw(st.booleans()) else ["t", i] for i in picks]
+        c["prog"]["comps"].insert(draw(st.integers(0, len(c["prog"]["comps"]))), ["f", "collect", [], args])
+        c["collect"] = True
+    return c
+
+
 def strategy(tier):
+    return _with_collect(_strategy(tier))
+
+
+def _strategy(tier):
     return st.one_of(
         c01._case().map(lambda c: {"shape": "c01", "table": c["table"], "scan": c["scan"], "prog": c["prog"], "policy": None}),
         c13._case().map(lambda c: {"shape": "c13", "table": c["table"], "scan": c["scan"], "prog": c["prog"], "policy": None}),
@@ -48,7 +66,7 @@ def run_case(case, sb):
         sb.write_config(["collect", "print"])
     rel = sb.write_csv("f.csv", records)
     text = common.text_of(case["prog"], rel, case["scan"])
-    labels = ["shape:" + case["shape"]]
+    labels = ["shape:" + case["shape"]] + (["collect()"] if case.get("collect") else [])
     A = real.run_path(text, method="collect")
     B = real.run_next_with_snapshots(text)
     C = real.run_path(text, method="fast_forward")
